@@ -266,7 +266,10 @@ L(name='dyn_invariants_link', props=['C15'], src='dyn_link.cpp', flags=DYNF, arg
   assumptions=['bounded link: never counted as proved'])
 for _u in ('dyn_lower_bound_bl', 'dyn_find'):
     REPRO[_u] = dict(name='dyn_points_link', src='dyn_link.cpp', flags=DYNF, args=['points', 'quick'])
-for _u in ('dyn_ceil_log2', 'dyn_max_size'):
+REPRO['dyn_range'] = dict(name='dyn_traversal_link', src='dyn_link.cpp', flags=DYNF, args=['traversal', 'quick'])
+for _u in ('dyn_merge', 'dyn_merge_slice'):
+    REPRO[_u] = dict(name='dyn_points_link', src='dyn_link.cpp', flags=DYNF, args=['points', 'quick'])
+for _u in ('dyn_ceil_log2', 'dyn_max_size', 'dyn_insert', 'dyn_pairwise_merge', 'dyn_pairwise_merge_full', 'dyn_ctor'):
     REPRO[_u] = dict(name='dyn_invariants_link', src='dyn_link.cpp', flags=DYNF, args=['invariants', 'quick'])
 L(name='guards_link', props=['C20'], src='guards_link.cpp', flags=['-Wno-deprecated-declarations', '-DNDEBUG'], args={'quick': [], 'thorough': []},
   bound={'quick': 'reserved key at the end of arrays of length 1/2/5/40 (1-3 copies) for 7 key types x 4 index classes; every base 3..255; unsorted pair at every ~20th position of bulk loads of 2/3/10/200 pairs; tombstone value every 5th step of a 600-step history; lo>hi; too-wide coordinate in either position; non-increasing x as point 2..6 of a segment', 'thorough': 'same'},
